@@ -324,6 +324,52 @@ theorem csv_grid_rectangular (c : Codec V) (d : Bool) (fs : FSpan) (db : Box (Se
 example : ((exportGrid sdmxCodec true [("a", .ser ⟨.Q, 8080, 3, [[none, none, none]], "d"⟩), ("b", .ser ⟨.Q, 8079, 1, [[none], [none], [none]], ""⟩),
     ("i", .ser ⟨.I, 5, 2, [[none, none], [none, none]], ""⟩)]).map List.length) = [10, 10, 10, 10, 10] := by decide
 
+
+/-- **export of a selection and re-import, end to end** (input-level hypotheses only; composes `csv_selection_roundtrip` with
+`csv_selection_rowAt`): every series of a selected, dated frequency comes back under its name as a series that has, at every
+written period -- whatever their order, step or repetition: each row is dated by ITS OWN date cell -- the original's own row,
+and a NaN row at every other period -/
+theorem csv_selection_end_to_end (c : Codec V) (hc : CodecLaw c) (d : Bool) (fs : FSpan) (db : Box (Ser V) V)
+    (hdb : ExportableDatabox db) (hsel : SelectionOK fs db) :
+    ∃ l, importGrid c d (exportGridWith c d fs db) = .ok l
+      ∧ ∀ b ∈ exportBlocksWith fs (seriesOf db), b.freq ≠ .U → ∀ p ∈ b.members,
+          ∃ s, (p.1, s) ∈ l ∧ ∀ t, s.rowAt t = if t ∈ b.periods then p.2.rowAt t else nanRow p.2.nv := by
+  refine ⟨_, csv_selection_roundtrip c hc d fs db hdb hsel, ?_⟩
+  intro b hb hf p hp
+  refine ⟨(reimport (descOf d) b p).2, List.mem_flatMap.mpr ⟨b, hb, List.mem_map.mpr ⟨p, hp, rfl⟩⟩, ?_⟩
+  intro t
+  have hne : b.periods ≠ [] := by
+    rcases hsel.blocks b hb with h | h
+    · exact absurd h.1 hf
+    · exact h.2.2
+  have hrows : ∀ r ∈ p.2.rows, r.length = p.2.nv := by
+    have hb' := hb
+    unfold exportBlocksWith at hb'
+    obtain ⟨e, _, hbe⟩ := List.mem_filterMap.mp hb'
+    dsimp only at hbe
+    split at hbe
+    · simp at hbe
+    · simp only [Option.some.injEq] at hbe
+      subst hbe
+      exact hdb.rows p (List.mem_filter.mp hp).1
+  exact reimport_rowAt (descOf d) b p hf hne hrows t
+
+/-- **rejection**: a file that has a block but no data row is rejected by the reader (`data_rows[0]`), e.g. the export of a
+databox whose series are all empty -- the case `WellFormedDatabox.hasData` excludes -/
+theorem export_without_data_rows_is_rejected (c : Codec V) (d : Bool) (fs : FSpan) (db : Box (Ser V) V)
+    (hn : GoodNames (seriesOf db)) (hB : (exportBlocksWith fs (seriesOf db)).isEmpty = false)
+    (hT : totalRowsWith fs (seriesOf db) = 0) :
+    importGrid c d (exportGridWith c d fs db) = .error .badInput := by
+  unfold exportGridWith
+  simp only [hB, Bool.false_eq_true, if_false, hT]
+  apply import_without_data_rows
+  · intro e; rw [e] at hB; simp at hB
+  · exact goodNames_exportBlocksWith fs _ hn
+  · intro b hb; have := fit_exportBlocksWith fs (seriesOf db) b hb; omega
+
+example : importGrid sdmxCodec true (exportGrid sdmxCodec true [("e", .ser ⟨.U, 0, 2, [], "empty"⟩), ("k", .scalar none)])
+    = .error .badInput := by decide
+
 /-- the hypotheses of `csv_selection_roundtrip` are met by a descending, stepped selection on a two-series databox -/
 example : ExportableDatabox (V := Nat) [("a", .ser ⟨.Q, 8080, 1, [[some 1], [none], [some 3]], ""⟩), ("k", .scalar none)]
     ∧ SelectionOK (V := Nat) [(.Q, some [8082, 8080, 8077])] [("a", .ser ⟨.Q, 8080, 1, [[some 1], [none], [some 3]], ""⟩), ("k", .scalar none)] := by
@@ -351,7 +397,7 @@ def unaryCodec : Codec Tok where
   fmtCell := fun x => match x with | none => "" | some t => t.val
   parseCell := fun s => if h : s = "" then none else some ⟨s, h⟩
 
-example : CodecLaw unaryCodec where
+theorem unaryCodec_law : CodecLaw unaryCodec where
   date := by
     intro f n _ _
     constructor
@@ -395,6 +441,44 @@ example : WellFormedDatabox (V := Nat)
     · exact Or.inr ⟨by decide, ⟨_, rfl, by decide⟩, ⟨_, rfl, by decide⟩⟩
     · exact Or.inl ⟨rfl, rfl, rfl⟩
   hasData := Or.inr ⟨("m", ⟨.M, 24240, 1, [[some 7], [some 8]], ""⟩), by simp [seriesOf], by decide⟩
+
+
+/-- the headline theorem on a concrete databox (two frequencies, different starts and lengths, two variants, NaNs inside, an
+empty series, a scalar): the hypotheses are met and the conclusion is the expected list -/
+def exampleBox : Box (Ser Tok) Tok :=
+  [("gdp, real", .ser ⟨.Q, 8080, 2, [[some ⟨"1", by decide⟩, none], [none, none], [none, some ⟨"2", by decide⟩]], "a desc, *"⟩),
+   ("k", .scalar none),
+   ("x y", .ser ⟨.Q, 8078, 1, [[some ⟨"3", by decide⟩]], "*"⟩),
+   ("m", .ser ⟨.M, 24240, 1, [[some ⟨"7", by decide⟩], [some ⟨"8", by decide⟩]], ""⟩),
+   ("e", .ser ⟨.U, 0, 2, [], "empty"⟩)]
+
+theorem exampleBox_wellFormed : WellFormedDatabox exampleBox where
+  distinct := by decide
+  names := by
+    intro p hp
+    simp only [exampleBox, seriesOf, List.filterMap_cons, List.filterMap_nil, List.mem_cons, List.mem_nil_iff, or_false] at hp
+    rcases hp with rfl | rfl | rfl | rfl <;> decide
+  rows := by
+    intro p hp
+    simp only [exampleBox, seriesOf, List.filterMap_cons, List.filterMap_nil, List.mem_cons, List.mem_nil_iff, or_false] at hp
+    rcases hp with rfl | rfl | rfl | rfl <;> decide
+  freq := by
+    intro p hp
+    simp only [exampleBox, seriesOf, List.filterMap_cons, List.filterMap_nil, List.mem_cons, List.mem_nil_iff, or_false] at hp
+    rcases hp with rfl | rfl | rfl | rfl <;> decide
+  shape := by
+    intro p hp
+    simp only [exampleBox, seriesOf, List.filterMap_cons, List.filterMap_nil, List.mem_cons, List.mem_nil_iff, or_false] at hp
+    rcases hp with rfl | rfl | rfl | rfl
+    · exact Or.inr ⟨by decide, ⟨_, rfl, by decide⟩, ⟨_, rfl, by decide⟩⟩
+    · exact Or.inr ⟨by decide, ⟨_, rfl, by decide⟩, ⟨_, rfl, by decide⟩⟩
+    · exact Or.inr ⟨by decide, ⟨_, rfl, by decide⟩, ⟨_, rfl, by decide⟩⟩
+    · exact Or.inl ⟨rfl, rfl, rfl⟩
+  hasData := Or.inr ⟨("m", ⟨.M, 24240, 1, [[some ⟨"7", by decide⟩], [some ⟨"8", by decide⟩]], ""⟩), by simp [exampleBox, seriesOf], by decide⟩
+
+example : importGrid unaryCodec true (exportGrid unaryCodec true exampleBox)
+    = .ok ((blockOrder.flatMap (withFreq (seriesOf exampleBox))).map (withDesc (descOf true))) :=
+  csv_roundtrip unaryCodec unaryCodec_law true exampleBox exampleBox_wellFormed
 
 /-- the format reserves exactly this much of a name: non-empty, not the continuation mark, not starting with the block mark -/
 example : GoodNames [("gdp, real", (⟨.Q, 8080, 2, [[some 1, none], [none, some 2]], "a \"desc\", *"⟩ : Ser Nat)), ("x y", ⟨.Q, 8079, 1, [[some 3]], "*"⟩)] := by
@@ -705,6 +789,52 @@ example : toDatabox (applySlateOps (Slate.mk ["a"] BFreq.Q 8076 6 [2, 3] [[[some
     [.removeStart 2, .removeEnd 2, .addEnd 1]) false
       = .ok [("a", ⟨.Q, 8078, 1, [[some 3], [some 4], [none]], ""⟩)] := by decide
 
+
+/-- **clip first, THEN fallbacks and overwrites**: with `clip_data_to_base_span`, a column outside the base columns carries
+exactly the declared overwrite, else the declared fallback, else NaN -- never the input value; a base column carries the
+overwrite, else the input value, else (NaN input) the fallback -/
+theorem nonbase_columns_carry_declared_fills (fb ow : Option (Option V)) (base : List Nat) (row : List (Option V)) (i : Nat)
+    (hi : i < row.length) :
+    (applyOverwrite ow (applyFallback fb (clipRow true base row)))[i]?
+      = some (match ow with
+        | some z => z
+        | none =>
+          match (if base.contains i then row[i] else none), fb with
+          | some y, _ => some y
+          | none, some x => x
+          | none, none => none) := by
+  have hc := clipRow_cell base row i hi
+  cases ow with
+  | some z => simp [applyOverwrite, applyFallback, hc]; cases fb <;> simp [applyFallback, hc]
+  | none =>
+    cases fb with
+    | none => simp only [applyOverwrite, applyFallback, hc]; cases (if base.contains i then row[i] else none) <;> rfl
+    | some x =>
+      simp only [applyOverwrite, applyFallback, List.getElem?_map, hc, Option.map_some]
+      cases (if base.contains i then row[i] else none) <;> rfl
+
+/-- the order is the model's `recordOf`: the record of a name is overwrite ∘ fallback ∘ clip of the input row -/
+theorem record_is_clip_then_fill (db : Box (Ser V) V) (f : BFreq) (start : Int) (len : Nat) (fbT owT : Box (Ser V) V)
+    (clip : Bool) (base : List Nat) (v : Nat) (n : String) (row : List (Option V)) (fb ow : Option (Option V))
+    (hrow : (match lookup db n with | none => (pure (nanVec len) : R (List (Option V))) | some it => variantRow f start len v it) = .ok row)
+    (hfb : fillFor fbT v n = .ok fb) (how : fillFor owT v n = .ok ow) :
+    recordOf db f start len fbT owT clip base v n = .ok (applyOverwrite ow (applyFallback fb (clipRow clip base row))) := by
+  unfold recordOf
+  cases hl : lookup db n with
+  | none =>
+    simp only [hl, pure, Except.pure, Except.ok.injEq] at hrow
+    subst hrow
+    simp only [hl, hfb, how, bind, Except.bind, pure, Except.pure]
+  | some it =>
+    simp only [hl] at hrow
+    simp only [hl, hrow, hfb, how, bind, Except.bind, pure, Except.pure]
+
+example : recordOf [("a", Item.ser (⟨.Q, 8080, 1, [[some 1], [none], [some 3], [some 4]], ""⟩ : Ser Nat))] .Q 8080 4
+    [("a", .scalar (some 9))] [] true [1, 2] 0 "a" = .ok [some 9, some 9, some 3, some 9] := by decide
+
+example : (Slate.mk ["a"] BFreq.Q 8076 3 [1] [[[some 1, some 2, some (3 : Nat)]]] 0 0).hasRecord 0 0 :=
+  ⟨_, _, rfl, rfl, rfl⟩
+
 end Slate
 
 /-! ### Databox operations: the frame condition -/
@@ -901,6 +1031,94 @@ example : merge (V := Nat) ⟨fun (_ : Nat) => BFreq.I, (· + ·), (· + ·), fu
     [("a", .ser 2), ("k", .scalar (some 1))] [[("a", .ser 5), ("k", .list [none, some 7]), ("z", .ser 9)]]
       = .ok [("a", .ser 10), ("k", .list [some 1, none, some 7]), ("z", .ser 9)] := by decide
 
+
+
+/-! ### Name resolution shared by rename / copy (pairs) and keep / remove (sources) -/
+
+/-- **`_resolve_source_target_names`, non-strict**: sources and targets are zipped FIRST and the pairs whose source is missing
+are dropped as pairs -- a surviving source keeps the target it was aligned with (never: filter the sources, then truncate the
+targets) -/
+theorem resolvePairs_filters_pairs (ctx src tgt : List String) :
+    resolvePairs ctx (.names src) (.names tgt) false = (src.zip tgt).filter (fun p => ctx.contains p.1)
+      ∧ ∀ p, p ∈ resolvePairs ctx (.names src) (.names tgt) false ↔ p ∈ src.zip tgt ∧ p.1 ∈ ctx := by
+  refine ⟨rfl, ?_⟩
+  intro p
+  simp [resolvePairs, Sel.resolve, Tgt.resolve, List.mem_filter]
+
+/-- `copy` resolves its names by the same rule as `rename`; `keep` / `remove` use the sources of the same rule -/
+theorem copy_uses_the_same_pairs (ctx : List String) (src : Sel) (tgt : Tgt) :
+    copyLists ctx (some src) (some tgt) false
+      = ((resolvePairs ctx src tgt false).map (·.1), (resolvePairs ctx src tgt false).map (·.2))
+    ∧ resolveSources ctx src false = (resolvePairs ctx src .same false).map (·.1) := by
+  constructor
+  · simp [copyLists, resolvePairs]
+  · simp only [resolveSources, resolvePairs, Tgt.resolve, Bool.false_eq_true, if_false]
+    induction src.resolve ctx with
+    | nil => rfl
+    | cons a l ih =>
+      simp only [List.zip_cons_cons, List.filter_cons]
+      by_cases h : ctx.contains a = true
+      · simp only [h, if_true, List.map_cons, ih]
+      · simp only [h, Bool.false_eq_true, if_false, ih]
+
+/-- the missing source in the middle does not shift the targets -/
+example : resolvePairs ["a", "b", "c"] (.names ["a", "zz", "c"]) (.names ["x", "y", "w"]) false = [("a", "x"), ("c", "w")] := by
+  decide
+
+/-- **rejections**: a source that is not in the databox (only possible with `strict_names`) makes `rename` raise, a missing
+name makes `remove` raise -- as the code's `KeyError` -/
+theorem rename_missing_source_rejected (db : Box S V) (src : Sel) (tgt : Tgt) (strict : Bool)
+    (h : ∃ p ∈ resolvePairs (keys db) src tgt strict, p.1 ∉ keys db) : rename db src tgt strict = .error .badInput := by
+  obtain ⟨p, hp, hk⟩ := h
+  unfold rename renamePairs
+  rw [popAll_missing db _ ⟨p.1, List.mem_map_of_mem (f := (·.1)) hp, hk⟩]
+  rfl
+
+theorem remove_missing_name_rejected (db : Box S V) (sel : Sel) (strict : Bool)
+    (h : ∃ n ∈ resolveSources (keys db) sel strict, n ∉ keys db) : remove db (some sel) strict = .error .badInput :=
+  removeNames_missing db _ h
+
+example : rename (S := Nat) (V := Nat) [("a", .ser 1)] (.names ["a", "zz"]) (.names ["x", "y"]) true = .error .badInput := by decide
+example : remove (S := Nat) (V := Nat) [("a", .ser 1)] (some (.names ["zz"])) true = .error .badInput := by decide
+
+/-- **copy with renaming as a dictionary equation** (non-strict): the copy holds exactly the targets, each bound to the value its
+source has in the original (swaps and chains included); sources are automatically existing names -/
+theorem copy_with_renaming (db : Box S V) (src : Sel) (tgt : Tgt)
+    (hs : ((resolvePairs (keys db) src tgt false).map (·.1)).Nodup)
+    (ht : ((resolvePairs (keys db) src tgt false).map (·.2)).Nodup) :
+    ∃ r, copy db (some src) (some tgt) false = .ok r
+      ∧ (∀ p ∈ resolvePairs (keys db) src tgt false, lookup r p.2 = lookup db p.1)
+      ∧ (∀ n, n ∉ (resolvePairs (keys db) src tgt false).map (·.2) → lookup r n = none) :=
+  copy_renaming db src tgt hs ht
+
+example : copy (S := Nat) (V := Nat) [("a", .ser 1), ("b", .ser 2), ("c", .ser 3)] (some (.names ["a", "b", "zz"])) (some (.names ["b", "q", "r"])) false
+    = .ok [("b", .ser 1), ("q", .ser 2)] := by decide
+
+/-! non-vacuity of the positive halves on concrete databoxes -/
+example : overlay (V := Nat) ⟨fun (_ : Nat) => BFreq.I, (· + ·), (· * ·), fun a _ _ => a, (· + ·)⟩
+    [("x", .ser 1), ("k", .scalar none), ("y", .ser 2)] [("x", .ser 10), ("k", .ser 5)] none false
+      = .ok [("x", .ser 11), ("k", .scalar none), ("y", .ser 2)] := by decide
+example : clip (V := Nat) ⟨fun (s : Nat) => if s < 5 then BFreq.Q else BFreq.M, (· + ·), (· * ·), fun a _ _ => a + 100, (· + ·)⟩
+    [("x", .ser 1), ("y", .ser 7)] .Q (some 3) none = [("x", .ser 101), ("y", .ser 7)] := by decide
+example : keep (S := Nat) (V := Nat) [("a", .ser 1), ("b", .ser 2), ("c", .ser 3)] (some (.pred (fun n => n != "b"))) false
+    = [("a", .ser 1), ("c", .ser 3)] := by decide
+example : remove (S := Nat) (V := Nat) [("a", .ser 1), ("b", .ser 2), ("c", .ser 3)] (some (.names ["c", "a", "zz"])) false
+    = .ok [("b", .ser 2)] := by decide
+
+/-- **rejection**: overlay / underlay / prepend raise as soon as one name of their list is missing (strict) or not a series
+where a series is needed -/
+theorem lay_rejected (o : SOps S) (f : S → S → S) (db other : Box S V) (names : Option (List String)) (strict : Bool)
+    (h : ∃ n ∈ layNames db other names strict, layAct o db other n = .raise) :
+    lay o f db other names strict = .error .badInput := by
+  obtain ⟨n, hn, ha⟩ := h
+  unfold lay
+  have : (layNames db other names strict).any (fun n => decide (layAct o db other n = .raise)) = true :=
+    List.any_eq_true.mpr ⟨n, hn, by simp [ha]⟩
+  simp only [this, if_true]
+  rfl
+
+example : overlay (V := Nat) ⟨fun (_ : Nat) => BFreq.Q, (· + ·), (· * ·), fun a _ _ => a, (· + ·)⟩
+    [("x", .ser 1), ("k", .scalar none)] [("x", .ser 10), ("k", .ser 5)] (some ["x", "k"]) false = .error .badInput := by decide
 
 /-! ### Spellings of one call -/
 
